@@ -6,7 +6,7 @@ use crate::{
     base::{BlockType, ParamKey, TokenResult},
     utils,
 };
-use std::sync::{atomic::Ordering, Arc, Weak};
+use crate::vsync::{atomic::Ordering, Arc, Weak};
 
 #[derive(Debug)]
 pub struct ThrottlingChecker<C: CounterTrait = Counter> {
@@ -88,7 +88,7 @@ impl<C: CounterTrait> Checker<C> for ThrottlingChecker<C> {
                         return TokenResult::new_pass();
                     }
                 } else {
-                    std::thread::yield_now();
+                    crate::vsync::yield_now();
                 }
             } else {
                 let msg = format!("hotspot throttling check blocked, wait time exceedes max queueing time, arg: {:?}", arg);
